@@ -1021,7 +1021,7 @@ func (rr *rlRun) batch(m *rlMux, cases []rlCase, via string, do func(c rlCase) r
 func runRelay(cfg Cfg) {
 	s := NewStream(cfg.Out, "relay")
 	defer s.Close()
-	s.Rule = "handler behaviour scripts (WriteHeader/Write/Flush/FlushError/io.Copy from a plain reader and from an *os.File/io.WriteString/Respond200/RespondJson/Error404/Error500/return/panic with 11 kinds of values/ErrAbortHandler) on the real Mux+Relay, 3 handlers x 5 thresholds x plain/colourful, matched, unmatched (default and scripted no-route handler) and method-mismatch routes; exhaustive scripts up to length 3 (quick) / 4 (thorough) over {h200,h404,h500,w,flush,p1,pa,r}, random longer ones, 32 requests in flight through recorders and through a real loopback server (both tiers: all scripts of length <= 2 over the writing entry points, plus random ones); evaluation = the C15 contract on one request; non-trivial = in-scope request whose handler panics, distinct by (handler, threshold, colour, script)"
+	s.Rule = "handler behaviour scripts (WriteHeader/Write/Flush/FlushError/io.Copy from a plain reader and from an *os.File/io.WriteString/Respond200/RespondJson/Error404/Error500/return/panic with 11 kinds of values/ErrAbortHandler) on the real Mux+Relay, 3 handlers x 5 thresholds x plain/colourful, matched, unmatched (default and scripted no-route handler) and method-mismatch routes; exhaustive scripts up to length 3 (quick) / 4 (thorough) over {h200,h404,h500,w,flush,p1,pa,r}, random longer ones, 32 requests in flight through recorders and through a real loopback server (both tiers: all scripts of length <= 2 over the writing entry points, plus random ones); plus (direct oracle only) nested dispatch through the same Mux with the outer store.W, refused protocol upgrades in an http.HandlerFunc mounted with CreateHandler, a ~20 KB request target followed by ordinary requests; evaluation = the C15 contract on one request; non-trivial = in-scope request whose handler panics, distinct by (handler, threshold, colour, script)"
 	defer func() {
 		if rlCopyFile.path != "" {
 			os.Remove(rlCopyFile.path)
@@ -1035,6 +1035,8 @@ func runRelay(cfg Cfg) {
 		rlReplay(cfg, rr)
 		return
 	}
+
+	rlExtras(s, rng.Fork()) // nested dispatch, refused upgrades through CreateHandler, very large records (direct oracle only)
 
 	// 1. exhaustive small scripts, every threshold, every handler
 	all := rlAllScripts([]string{"h200", "h404", "h500", "w", "flush", "p1", "pa", "r"}, cfg.N(3, 4))
